@@ -85,7 +85,7 @@ def run_case(case):
         want["circumference"] = (per, TAU * per)
         want["eccentricity"] = (float((1 - C.dm(lo) ** 2 / C.dm(hi) ** 2).sqrt()), 1e-9 + 4e-8 * (1 if 0 < hi / lo - 1 < 1e-6 else 0))
         iq = 4 * pi * area / per**2
-        want["iq"] = (iq, 1e-9)
+        want["iq"] = (iq, 1e-9 * iq)  # relative: iq is ~1e-6 for needles
         ix = area * b * b / 4 + area * c[1] ** 2
         iy = area * a * a / 4 + area * c[0] ** 2
         ixy = area * c[0] * c[1]
@@ -100,7 +100,7 @@ def run_case(case):
         want["volume"] = (vol, TAU * vol)
         want["surface_area"] = (sur, TAU * sur)
         iq = 36 * pi * vol**2 / sur**3
-        want["iq"] = (iq, 1e-9)
+        want["iq"] = (iq, 1e-9 * iq)  # relative: iq is ~1e-6 for needles
         Ic = np.diag([vol / 5 * (b * b + cc * cc), vol / 5 * (a * a + cc * cc), vol / 5 * (a * a + b * b)])
         I = Ic + vol * ((c @ c) * np.eye(3) - np.outer(c, c))
         want["inertia_tensor"] = (I, TAU * vol * (max(a, b, cc) ** 2 + c @ c))
